@@ -27,6 +27,9 @@ CLAIMED = {
 }
 
 REASON_PENDING = "check not built yet in this round (planned, DESIGN.md section 3); not claimed until it runs"
+REASONS = {
+ "C19": "model checking cannot apply: the property is about programs the compiler rejects, so there is no execution, schedule, state or history to enumerate - the deciding step would be rustc's type checker, a different family (DESIGN.md section 3, C19)",
+}
 
 props = [json.loads(l) for l in open('/verif/properties.jsonl')]
 m = {
@@ -63,6 +66,6 @@ for p in props:
           "technique": "stateless exhaustive schedule exploration of the implementation (model checking, CHESS style)",
         })
     else:
-        m['not_applicable'].append({"property_id": pid, "reason": REASON_PENDING})
+        m['not_applicable'].append({"property_id": pid, "reason": REASONS.get(pid, REASON_PENDING)})
 json.dump(m, open('/verif/MANIFEST.json', 'w'), indent=1)
 print("claimed:", sorted(CLAIMED))
